@@ -85,7 +85,11 @@ let parse_diag (s : ostring) : dnode list =
       if !p < n && s.[!p] = ',' then (incr p; it :: items ()) else [it] end
   and num () = let st = !p in while !p < n && s.[!p] >= '0' && s.[!p] <= '9' do incr p done; int_of_string (String.sub s st (!p - st))
   and item () : dnode =
-    let l = num () in incr p; let c = num () in incr p; let o0 = num () in
+    let l0 = num () in incr p; let c = num () in incr p; let o0 = num () in
+    (* optional fourth number: index of the file the instruction comes from.  The model's "line" is the pair (file, line),
+       packed into one number (line_step ends in front of the first instruction of another line OR another file) *)
+    let fl = if !p < n && s.[!p] = '.' then (incr p; num ()) else 0 in
+    let l = fl * 1000 + l0 in
     let o = intern (c, o0) in
     if !p < n && s.[!p] = '[' then begin incr p; let ch = items () in incr p; { line = l; off = o; sub = Some ch } end
     else { line = l; off = o; sub = None } in
